@@ -44,6 +44,9 @@ ls.for_prop('C19',
 c = contract('sopclass.qr_get_scu')
 c.prop('C17', 'C19')
 ls = c.loop('', 0)
+# a response object that already exists at the loop head may have been handed to send() in an earlier
+# iteration (send only queues a lazy encoder): storing into it again is an ownership obligation
+ls.havoc_stmts = [('rsp', 'havoc_moved(rsp)')]
 ls.for_prop('C19', head=['_t0 = trace_len()', 'ghost_set("yields_at_head", ghost_get("yield_count", 0))'])
 ls.for_prop('C17', head=['_t0 = trace_len()', 'ghost_set("yields_at_head", ghost_get("yield_count", 0))'])
 _GET_TAIL = [
